@@ -5,6 +5,8 @@
 #include <unifex/io_concepts.hpp>
 #include <unifex/linux/io_epoll_context.hpp>
 #include <unifex/linux/io_uring_context.hpp>
+#include <cstring>
+#include <array>
 #include <unifex/manual_lifetime.hpp>
 #include <unifex/scheduler_concepts.hpp>
 #include <unifex/span.hpp>
@@ -351,6 +353,102 @@ void uring_file_round(io_uring_context& ctx, rng& r, const std::string& path) {
   ++g_rounds;
 }
 
+// io_uring with a completely full ring ---------------------------------------------------------------
+// More reads than the completion ring has slots (512 for the context's 256-entry ring) are started on an empty pipe, so
+// the loop goes idle with no room left for the eventfd poll that normally announces remote work; then one byte arrives,
+// then EOF.  Every read must complete exactly once with the true count, on the I/O thread, and remote work scheduled
+// afterwards must still run.
+long g_sat_rounds = 0, g_sat_reads = 0;
+char thread_state_of(uint64_t tid) {
+  char path[64], buf[512];
+  snprintf(path, sizeof path, "/proc/self/task/%llu/stat", (unsigned long long)tid);
+  FILE* f = fopen(path, "r");
+  if (!f)
+    return '?';
+  size_t n = fread(buf, 1, sizeof buf - 1, f);
+  fclose(f);
+  buf[n] = 0;
+  char* q = strrchr(buf, ')');
+  return (q && q[1] && q[2]) ? q[2] : '?';
+}
+void wait_io_thread_asleep(uint64_t tid) {
+  auto t0 = std::chrono::steady_clock::now(), since = t0;
+  while (std::chrono::steady_clock::now() - t0 < std::chrono::seconds(10)) {
+    if (thread_state_of(tid) != 'S')
+      since = std::chrono::steady_clock::now();
+    else if (std::chrono::steady_clock::now() - since > std::chrono::milliseconds(60))
+      return;
+    usleep(2000);
+  }
+}
+void uring_saturation_round(io_uring_context& ctx, uint64_t io_thread, rng& r) {
+  int p[2];
+  if (pipe(p) != 0)
+    return;
+  {
+    io_uring_context::async_read_only_file in{ctx, dup(p[0])};
+    const int N = 520 + (int)r.below(120);
+    std::deque<ostate> sts(N);
+    std::vector<std::array<char, 8>> bufs(N);
+    using snd_t = decltype(async_read_some_at(in, 0, as_writable_bytes(span<char>{bufs[0].data(), 1})));
+    using op_t = connect_result_t<snd_t, orcv>;
+    std::vector<std::unique_ptr<op_t>> ops;
+    ops.reserve(N);
+    for (int i = 0; i < N; ++i) {
+      bufs[i].fill(0);
+      ops.emplace_back(new op_t(unifex::connect(async_read_some_at(in, 0, as_writable_bytes(span<char>{bufs[i].data(), 1})),
+                                                orcv{&sts[i]})));
+      unifex::start(*ops.back());
+    }
+    wait_io_thread_asleep(io_thread);
+    auto completed = [&] {
+      int c = 0;
+      for (auto& st : sts)
+        if (st.result.load(std::memory_order_acquire) != R_PENDING)
+          ++c;
+      return c;
+    };
+    if (completed() != 0)
+      violation("C14:io:read-completed-without-data", "saturated ring: %d reads on an empty pipe completed", completed());
+    char x = 'x';
+    if (write(p[1], &x, 1) != 1)
+      violation("C14:io:harness-write-failed", "pipe");
+    auto t0 = std::chrono::steady_clock::now();
+    while (completed() == 0) {
+      usleep(1000);
+      if (std::chrono::steady_clock::now() - t0 > std::chrono::seconds(30)) {
+        violation("C14:io:operation-lost", "saturated ring: no read completed after a byte was written");
+        report();
+        _exit(0);
+      }
+    }
+    usleep(30000);
+    if (completed() != 1)
+      violation("C14:io:read-completed-without-data", "saturated ring: %d reads completed for a single byte", completed());
+    close(p[1]);
+    int one = 0, zero = 0;
+    for (int i = 0; i < N; ++i) {
+      sts[i].wait("read on a saturated ring");
+      if (sts[i].thread.load() != io_thread)
+        violation("C14:io:completion-off-io-thread", "saturated ring read");
+      if (sts[i].result.load() == R_VALUE && sts[i].value == 1 && bufs[i][0] == 'x')
+        ++one;
+      else if (sts[i].result.load() == R_VALUE && sts[i].value == 0)
+        ++zero;
+      else
+        violation("C14:io:read-unexpected-completion", "saturated ring: result %d value %zd err %d", sts[i].result.load(),
+                  sts[i].value, sts[i].err);
+    }
+    if (one != 1 || zero != N - 1)
+      violation("C14:io:byte-stream-differs", "saturated ring: %d reads got the byte, %d saw EOF, of %d", one, zero, N);
+    // (a completion arriving later than this would be counted by ostate::complete as a second signal)
+    ops.clear();
+    g_sat_reads += N;
+    ++g_sat_rounds;
+  }
+  close(p[0]);
+}
+
 template <class Ctx, class Body>
 void with_context(const char* name, Body body) {
   int fds_before = count_fds();
@@ -407,6 +505,8 @@ int main(int argc, char** argv) {
         remote_schedule(ctx, io_thread, r, 1 + r.below(a.threads), 100);
         for (int k = 0; k < 3; ++k)
           uring_file_round(ctx, r, path);
+        if (i % 3 == 0)
+          uring_saturation_round(ctx, io_thread, r);
         remote_schedule(ctx, io_thread, r, 1 + r.below(a.threads), 50);
       });
     unlink(path.c_str());
@@ -423,6 +523,8 @@ int main(int argc, char** argv) {
   stat_add("reads_stop_lost_race_value", g_cancel_lost);
   stat_add("os_errors_checked", g_errors);
   stat_add("rounds", g_rounds);
+  stat_add("uring_saturated_ring_rounds", g_sat_rounds);
+  stat_add("uring_saturated_ring_reads", g_sat_reads);
   stat_add("contexts", a.iters);
   report();
   return 0;
